@@ -1421,3 +1421,107 @@ mod tests {
         assert_eq!(logs[0].data.bytes.to_vec(), [11u8; 32].to_vec());
     }
 }
+
+/// Verification hooks: table-level probes addressed by table name and encoded key.
+#[cfg(feature = "verif")]
+impl Brc20ProgDatabase {
+    /// latest(key) of a versioned table, as encoded bytes
+    pub fn verif_latest(&self, table: &str, key: &[u8]) -> Result<Option<Vec<u8>>, Box<dyn Error>> {
+        use crate::db::types::{Decode, Encode};
+        macro_rules! probe {
+            ($field:ident) => {{
+                let key = Decode::decode_vec(&key.to_vec())?;
+                Ok(self
+                    .$field
+                    .as_ref()
+                    .expect(DB_MUTEX_ERROR)
+                    .latest(&key)?
+                    .map(|v| v.encode_vec()))
+            }};
+        }
+        match table {
+            "account_memory" => probe!(db_account_memory),
+            "code" => probe!(db_code),
+            "account" => probe!(db_account),
+            "number_and_index_to_tx_hash" => probe!(db_number_and_index_to_tx_hash),
+            "tx_receipt" => probe!(db_tx_receipt),
+            "tx" => probe!(db_tx),
+            "account_and_nonce_to_tx_hash" => probe!(db_pending_txes),
+            "pending_tx_hash_to_tx_id" => probe!(db_pending_txes_op_return_tx_ids),
+            "tx_trace" => probe!(db_tx_trace),
+            "inscription_id_to_tx_hash" => probe!(db_inscription_id_to_tx_hash),
+            "contract_address_to_inscription_id" => probe!(db_contract_address_to_inscription_id),
+            "block_hash_to_number" => probe!(db_block_hash_to_number),
+            _ => Err(format!("unknown versioned table {}", table).into()),
+        }
+    }
+
+    /// get_range(lo, hi) of a versioned table: encoded (key, value) pairs in the order returned
+    pub fn verif_range(
+        &self,
+        table: &str,
+        lo: &[u8],
+        hi: &[u8],
+    ) -> Result<Vec<(Vec<u8>, Vec<u8>)>, Box<dyn Error>> {
+        use crate::db::types::{Decode, Encode};
+        macro_rules! probe {
+            ($field:ident) => {{
+                let lo = Decode::decode_vec(&lo.to_vec())?;
+                let hi = Decode::decode_vec(&hi.to_vec())?;
+                Ok(self
+                    .$field
+                    .as_ref()
+                    .expect(DB_MUTEX_ERROR)
+                    .get_range(&lo, &hi)?
+                    .into_iter()
+                    .map(|(k, v)| (k.encode_vec(), v.encode_vec()))
+                    .collect())
+            }};
+        }
+        match table {
+            "number_and_index_to_tx_hash" => probe!(db_number_and_index_to_tx_hash),
+            "account_and_nonce_to_tx_hash" => probe!(db_pending_txes),
+            _ => Err(format!("no range probe for table {}", table).into()),
+        }
+    }
+
+    /// row of a block-keyed table, as encoded bytes
+    pub fn verif_block_row(&self, table: &str, n: u64) -> Result<Option<Vec<u8>>, Box<dyn Error>> {
+        use crate::db::types::Encode;
+        match table {
+            "block_number_to_hash" => Ok(self
+                .db_block_number_to_hash
+                .as_ref()
+                .expect(DB_MUTEX_ERROR)
+                .get(n)?
+                .map(|v| v.encode_vec())),
+            "block_number_to_block" => Ok(self
+                .db_block_number_to_block
+                .as_ref()
+                .expect(DB_MUTEX_ERROR)
+                .get(n)?
+                .map(|v| v.encode_vec())),
+            "block_number_to_raw_block" => Ok(self
+                .db_block_number_to_raw_block
+                .as_ref()
+                .expect(DB_MUTEX_ERROR)
+                .get(n)?
+                .map(|v| v.encode_vec())),
+            _ => Err(format!("unknown block table {}", table).into()),
+        }
+    }
+
+    /// (latest height, next height, max_block_number row)
+    pub fn verif_heights(&mut self) -> Result<(u64, u64, Option<String>), Box<dyn Error>> {
+        let max = self
+            .db_global_values
+            .as_mut()
+            .expect(DB_MUTEX_ERROR)
+            .get(MAX_BLOCK_NUMBER_KEY.to_string())?;
+        Ok((
+            self.get_latest_block_height()?,
+            self.get_next_block_height()?,
+            max,
+        ))
+    }
+}
